@@ -174,6 +174,15 @@ def build(am, Tn, high, low, TlimLo, TlimHi, rTol, extrapolate=True, stages=None
                     th.freeEnergyLow.tracePhase(TlimLo, TlimHi, dT, rTol=rTol)
             elif st == "extrapolate":
                 th.setExtrapolate()
+            elif st == "probe-untraced":
+                # a coarse look at the untraced object over a wide temperature range, beyond the existence of either phase (what a
+                # user does to decide on the range to trace); exceptions are the object's business, the guesses it was given are not
+                for frac in (1.0, 0.9, 1.1, 0.75, 1.25, 0.6, 1.5, 1.0):
+                    for fn in ("pLowT", "pHighT"):
+                        try:
+                            getattr(th, fn)(frac * Tn)
+                        except Exception:  # noqa: BLE001
+                            pass
     except Exception as ex:  # noqa: BLE001 - classified by the caller
         return th, (stage, ex)
     return th, None
@@ -620,7 +629,8 @@ def retrace_cases(tier: str) -> list[dict]:
         if c["s"] == 1.0 and c["win"] in ("inside", "wide", "stagger-high-inner"):
             for name, stages in (("coarse,extrapolate,fine,extrapolate", ["trace-coarse", "extrapolate", "trace", "extrapolate"]),
                                  ("coarse,fine,extrapolate", ["trace-coarse", "trace", "extrapolate"]),
-                                 ("fine,extrapolate,fine,extrapolate", ["trace", "extrapolate", "trace", "extrapolate"])):
+                                 ("fine,extrapolate,fine,extrapolate", ["trace", "extrapolate", "trace", "extrapolate"]),
+                                 ("probe-untraced,fine,extrapolate", ["probe-untraced", "trace", "extrapolate"])):
                 out.append(dict(c, stages=stages, coarse=30.0 if c["win"] == "wide" else 3.0, id=c["id"] + ",history=" + name))
     return out
 
